@@ -49,12 +49,27 @@ class ModelError(Exception):
 # --------------------------------------------------------------------------
 # reference model
 # --------------------------------------------------------------------------
+# The private table 'scaled' carries every tabulated element and isotope mass multiplied by a factor that
+# depends on Z (not uniform: a uniform factor would leave all mole ratios of a mixture unchanged).
+TABLE_FACTORS = (1.0, 1.125, 1.25, 1.375, 1.5)
+
+
+def table_factor(tab, Z):
+    return TABLE_FACTORS[Z % 5] if tab == 'scaled' else 1.0
+
+
 def _mass(k):
-    return _s['model'].atom_mass(k, _s['me'])
+    """Mass of atom k on the table of the current case: tabulated mass x table factor - charge x m_e."""
+    m = _s['model']
+    tab = _s['cur']
+    if tab == 'public':
+        return m.atom_mass(k, _s['me'])
+    base = m.iso[(k[0], k[1])][0] if k[1] else m.el[k[0]][0]
+    return base * table_factor(tab, k[0]) - k[2] * _s['me']
 
 
 def _natural_mass(k):
-    return _s['model'].el[k[0]][0] - k[2] * _s['me']
+    return _s['model'].el[k[0]][0] * table_factor(_s['cur'], k[0]) - k[2] * _s['me']
 
 
 def _atom_density(k):
@@ -169,8 +184,36 @@ def observe(f):
     return {}, 0.0
 
 
+def foreign_atoms(f):
+    """Atoms of a result that do not live on the table of the current case."""
+    from periodictable import core
+    T = _s['tables'][_s['cur']]
+    out = []
+    for a in f.atoms:
+        base = a.element if core.ision(a) else a
+        if isinstance(base, core.Isotope):
+            base = base.element
+        if T[base.number] is not base:
+            out.append(str(a))
+    return sorted(out)
+
+
 def compare_model(ctx, f, want, tree, label, problems):
     comp, total = observe(f)
+    ctx.evaluated(what='home-table')
+    foreign = foreign_atoms(f)
+    if foreign:
+        # reported after the proportions (appended below), which are judged with the component table's masses
+        foreign = '%s: components live on the %s table but the mixture holds atoms of another table: %s' % (
+            label, _s['cur'], ', '.join(foreign[:6]))
+    try:
+        _compare_model(ctx, f, want, tree, label, problems, comp)
+    finally:
+        if foreign:
+            problems.append(foreign)
+
+
+def _compare_model(ctx, f, want, tree, label, problems, comp):
     ctx.evaluated(what='atoms')
     if set(comp) != set(want['comp']):
         extra = sorted(set(comp) - set(want['comp']))
@@ -340,13 +383,45 @@ def setup(ctx):
     from ..statemon import Reach
     from ..atoms import lookup
     from ..gen.mixtures import Lib, ALL_UNITS, WT_SPELLINGS, VOL_SPELLINGS
+    from periodictable import core, mass, density
     _s['model'] = MassModel()
     _s['me'] = pt.constants.electron_mass
+    _s['cur'] = 'public'
+    # private table whose masses differ from the public ones (components built on it must stay on it)
+    T = core.PeriodicTable('c11_scaled_%d' % ctx.shard)
+    mass.init(T)
+    density.init(T)
+    for el in T:
+        k = table_factor('scaled', el.number)
+        el._mass = el._mass * k
+        for iso in el:
+            iso._mass = iso._mass * k
+    _s['tables'] = {'public': pt.elements, 'scaled': T}
     _s['symbol'] = {el.number: el.symbol for el in pt.elements}
     _s['known'] = sorted(el.number for el in pt.elements
                          if el.number >= 1 and _s['model'].density.get(el.symbol) is not None)
     _install_wrappers()
-    _s['lib'] = Lib(pt.formula, pt.mix_by_weight, pt.mix_by_volume, lambda k: lookup(pt.elements, k))
+    def on_table(fn, table):
+        def call(*args, **kw):
+            return fn(*args, table=table, **kw)
+        call.__name__ = fn.__name__
+        return call
+
+    def lookup_T(k):
+        return lookup(T, k)
+
+    def lookup_public(k):
+        return lookup(pt.elements, k)
+    # (table of the case, table keyword given to mix_by_*) -> entry points of the call form
+    _s['libs'] = {
+        ('public', False): Lib(pt.formula, pt.mix_by_weight, pt.mix_by_volume, lookup_public),
+        ('public', True): Lib(on_table(pt.formula, pt.elements), on_table(pt.mix_by_weight, pt.elements),
+                              on_table(pt.mix_by_volume, pt.elements), lookup_public),
+        # components are Formula objects on T, nothing is left to parse: no table keyword needed
+        ('scaled', False): Lib(on_table(pt.formula, T), pt.mix_by_weight, pt.mix_by_volume, lookup_T, strings_ok=False),
+        ('scaled', True): Lib(on_table(pt.formula, T), on_table(pt.mix_by_weight, T), on_table(pt.mix_by_volume, T),
+                              lookup_T),
+    }
     reach = Reach()
     found = {}
     _nested_code(formulas.formula_grammar.__code__, set(ACTIONS), found)
@@ -367,6 +442,12 @@ def setup(ctx):
         ctx.require('accepted.repeat.layer', 1, 'a repeated layer group must have parsed')
         ctx.require('cases.zero-quantity', 1, 'zero quantities must have been exercised')
         ctx.require('cases.disjoint.call', 1, 'per-component shares need cases with pairwise disjoint atoms')
+        for name in ('scaled', 'scaled.table-keyword', 'public.table-keyword'):
+            ctx.require('cases.table.' + name, 1, 'components on a private table with other masses, with and without '
+                        'the table keyword, must have been mixed')
+        for name in ('grid', 'short'):
+            ctx.require('accepted.trace-remainder.' + name, 1, 'percentage strings leaving 1e-12 .. 1e-6 percent to the '
+                        'last component must have been accepted and compared')
 
 
 def finish(ctx):
@@ -386,7 +467,11 @@ def _scale_factors(case):
 
 def _run_string(ctx, case, tree, text, want, problems, r_call):
     import periodictable as pt
-    f = pt.formula(text)
+    tab = case.get('table') or 'public'
+    if tab != 'public' or case.get('table_kw'):
+        f = pt.formula(text, table=_s['tables'][tab])
+    else:
+        f = pt.formula(text)
     _drain(ctx, problems, 'string form')
     compare_model(ctx, f, want, tree, 'string form', problems)
     if r_call is not None:
@@ -412,9 +497,16 @@ def check_mixture(ctx, case):
     text = G.render_top(case)
     if text != case.get('text', text):
         raise ModelError('stored text %r is not the rendering %r of the stored tree' % (case['text'], text))
-    lib = _s['lib']
+    tab = case.get('table') or 'public'
+    _s['cur'] = tab
+    lib = _s['libs'][(tab, bool(case.get('table_kw')))]
+    ctx.count('cases.table.' + tab + ('.table-keyword' if case.get('table_kw') else ''))
     del _s['post_failures'][:]
     want = model_eval(tree)
+    if tree.get('fp'):
+        # quantities of the call form: the stated percentages and the remainder, ratios up to 1e14
+        qs = [float(G.frac(p['q'])) for p in tree['parts'][:-1]] + [float(G.remainder(tree))]
+        ctx.observe('quantity.ratio.max', max(qs) / min(qs))
     feats = case.get('features', [])
     has_zero = any(p.get('q') is not None and G.frac(p['q']) == 0 for n in G.walk(tree) if n['t'] == 'm' for p in n['parts']) \
         or any(n['t'] == 'm' and n['mode'] in ('wt', 'vol') and G.remainder(n) == 0 for n in G.walk(tree))
@@ -474,6 +566,8 @@ def check_mixture(ctx, case):
                 ctx.count('accepted.repeat.' + n['mode'])
         if G.depth_of(tree) > 1:
             ctx.count('accepted.nested')
+        if tree.get('fp'):
+            ctx.count('accepted.trace-remainder.' + tree['fp'])
     ctx.distinct_case(case.get('shape') or G.shape_of(tree))
 
 
@@ -509,7 +603,8 @@ def _sibling_ok(ctx, case, transform):
     """The same tree with the triggering token respelled (opening 'L' -> 'mL'; '%' / '%wt' before
     a count-led compound -> 'wt%') must parse and satisfy its own model."""
     from ..gen import mixtures as G
-    sib = {'tree': transform(case['tree']), 'wrap': case.get('wrap')}
+    sib = {'tree': transform(case['tree']), 'wrap': case.get('wrap'), 'table': case.get('table'),
+           'table_kw': case.get('table_kw')}
     if G.litre_first_nodes(sib['tree']) or G.count_after_percent_parts(sib['tree']) or G.has_layer_repeat(sib['tree']):
         return False
     problems = []
@@ -525,6 +620,7 @@ def check_documented(ctx, case):
     """The guide's own examples, as call forms (anchors the meaning of the string forms)."""
     import periodictable as pt
     text, kind, args = case['text'], case['call'], case['args']
+    _s['cur'] = 'public'
     f = pt.formula(text)
     g = (pt.mix_by_weight if kind == 'w' else pt.mix_by_volume)(*args)
     problems = []
@@ -552,7 +648,9 @@ SCALES = [2, 3, 10, 0.5, 0.125, 7.25, 1000, 0.001, 65536, 1.0 / 3]
 def generate(ctx):
     import periodictable as pt
     from ..gen.mixtures import MixtureGen
+    import random
     rng = ctx.rng
+    xr = random.Random('c11-table-%d-%d' % (ctx.seed, ctx.shard))     # own stream for the table dimension
     gen = MixtureGen(pt.elements, rng, _s['known'], maxdepth=3 if ctx.thorough() else 2,
                      big_counts=ctx.thorough())
     if ctx.shard == 0:
@@ -563,8 +661,16 @@ def generate(ctx):
         r = rng.random()
         # rendering patterns that hit listed candidate defects: one per case, bounded minority
         feature = ('litre-first' if r < 0.04 else 'layer-repeat' if r < 0.12
-                   else 'count-after-percent' if r < 0.16 else None)
+                   else 'count-after-percent' if r < 0.16 else 'trace-remainder' if r < 0.26 else None)
         case = gen.case(feature=feature)
+        # one case in five runs on the private table with other masses (half of them give mix_by_* the table
+        # keyword; without it the components are passed as Formula objects built on that table)
+        if xr.random() < 0.2:
+            case['table'], case['table_kw'] = 'scaled', xr.random() < 0.5
+        else:
+            case['table'], case['table_kw'] = 'public', xr.random() < 0.1
+        case['shape'] += ('/T' if case['table'] == 'scaled' else '') + ('/kw' if case['table_kw'] else '') \
+            + ('/trace-' + case['tree']['fp'] if case['tree'].get('fp') else '')
         k = len(case['tree']['parts'])
         case['scale'] = {str(i): rng.choice(SCALES) for i in range(k) if rng.random() < 0.7}
         yield 'mixture', _pack(case)
